@@ -90,6 +90,7 @@ def run(cx):
         process(cx, schemas, hists[lo:lo + step])
     when_family(cx)
     case_npcont_family(cx)
+    case_defaults_family(cx)
 
 
 # ---- law-only family: defaults guarded by `when` (on the node, on its choice, on its case, on a non-presence container) ------------
@@ -318,6 +319,59 @@ def case_npcont_family(cx):
                  "C:%d/%d:%s" % (top.sid, c.sid, tg.tok([tg.DN(c2, None, [])])), "V", "V"]
         hists.append(Hist(s, steps, [], [[] for _ in range(10)], 0))
     base = 900000
+    for k, h in enumerate(hists):
+        h.k = base + k
+    process(cx, schemas, hists)
+
+
+def case_defaults_family(cx):
+    """Histories over a case with SEVERAL default-bearing members around its explicit member (so that the first member of the case
+    in schema order is an implicit default): a default is overridden, validated, the override deleted again, validated - the
+    default must come back in THAT validation and be in the change set; also for a default leaf-list and a non-presence
+    container with defaults inside the case; through the ordinary pipeline (model + laws)."""
+    rng = cx.sub_rng("casedflt")
+    S, T = tg.SNode, tg.Ty
+    schemas, hists = [], []
+    for i in range(cx.n(40, 200)):
+        st = T("string")
+        nm = [0]
+
+        def name(p):
+            nm[0] += 1
+            return "%s%d" % (p, nm[0])
+        members = [S("leaf", name("d"), ty=st, dflt=rng.choice([b"3", b"x"])) for _ in range(rng.randrange(1, 3))]
+        e = S("leaf", name("e"), ty=st)
+        members.insert(rng.randrange(1, len(members) + 1), e)                    # mostly NOT first
+        members += [S("leaf", name("d"), ty=st, dflt=rng.choice([b"30", b"y"])) for _ in range(rng.randrange(1, 3))]
+        if rng.random() < 0.4:
+            members.append(S("leaflist", name("dl"), ty=st, dflts=[b"p", b"q"]))
+        if rng.random() < 0.4:
+            members.insert(rng.randrange(len(members) + 1), S("container", name("nc"), kids=[S("leaf", name("n"), ty=st, dflt=b"dn"), S("leaf", name("m"), ty=st)]))
+        if rng.random() < 0.2:
+            members.insert(0, members.pop(members.index(e)))                         # the control: explicit member first
+        cases = [S("case", "auto", kids=members), S("case", "man", kids=[S("leaf", "w", ty=st)])]
+        ch = S("choice", "mode", kids=cases)
+        if rng.random() < 0.3:
+            ch.dflt = "auto"
+        top = S("container", "top", presence=True, kids=[S("leaf", "p", ty=st), ch] if rng.random() < 0.5 else [ch])
+        s = vg.XSchema("vd%02d" % i, [top])
+        schemas.append(s)
+        dfl = [m for m in members if m.kind == "leaf" and m.dflt is not None]
+        for _ in range(cx.n(4, 10)):
+            steps = ["C:-:%s" % tg.tok([tg.DN(top, None, [tg.DN(e, b"on")])]), "V"]
+            for m in rng.sample(dfl, rng.randrange(1, len(dfl) + 1)):
+                steps.append("C:%d:%s" % (top.sid, tg.tok([tg.DN(m, b"60")])))
+                if rng.random() < 0.8:
+                    steps.append("V")
+                steps.append("D:%d/%d" % (top.sid, m.sid))
+                if rng.random() < 0.8:
+                    steps.append("V")
+            if steps[-1] != "V":
+                steps.append("V")
+            if rng.random() < 0.3:
+                steps += ["D:%d/%d" % (top.sid, e.sid), "V"]
+            hists.append(Hist(s, steps, [], [[] for _ in range(14)], 0))
+    base = 950000
     for k, h in enumerate(hists):
         h.k = base + k
     process(cx, schemas, hists)
